@@ -187,9 +187,9 @@ def call(ps, fn, conv):
     return {"exc": "", "val": conv(v)}
 
 
-def query(ps, inp):
-    """Functional kinds: one call on a fresh Process object."""
-    pr = ps.Process(PID)
+def query(ps, inp, pr=None):
+    """Functional kinds: one call on a fresh Process object (or on *pr*)."""
+    pr = pr or ps.Process(PID)
     kind = inp["kind"]
     if kind == "cmdline":
         return call(ps, pr.cmdline, conv_list)
@@ -266,6 +266,7 @@ def run_chunk(cases):
     """Forked child of the template.  Returns (mismatches, result classes)."""
     w, ps = template()
     bad, seen = [], set()
+    held = None
     for i, c in enumerate(cases):
         inp = c["inp"]
         kind = inp["kind"]
@@ -283,6 +284,18 @@ def run_chunk(cases):
                         signature(out["cls"], got, out, kind),
                         inp["which"] if kind == "link" else kind, show(got, kind),
                         " or ".join(show(a, kind) for a in out["allowed"]), out["cls"], json.dumps(inp))))
+                if kind == "name":
+                    # the object that answered the previous name() case is asked again: the
+                    # process (same PID, same start) has meanwhile exec'ed into this case's program
+                    if held is not None:
+                        got2 = query(ps, inp, held)
+                        if canon(got2, kind) not in allowed:
+                            bad.append((i, "%s:same-object-after-exec| name() -> %s on an object that had answered for the "
+                                           "program the process ran before, the specification allows %s  [input %s]" % (
+                                               signature(out["cls"], got2, out, kind), show(got2, kind),
+                                               " or ".join(show(a, kind) for a in out["allowed"]), json.dumps(inp))))
+                    held = ps.Process(PID)
+                    held.name()
                 if kind == "cmdline" and inp["zombie"]:
                     # the same zombie, but it died inside a oneshot() block that had
                     # already looked at it alive
